@@ -418,6 +418,11 @@ pub open spec fn members_enc(members: Seq<(String, AVal)>, n: nat) -> Seq<u8>
     }
 }
 
+/// attribute-with-one-value (§3.1.4): value-tag, name-length, name, then the value (with its additional values)
+pub open spec fn spec_attr_enc(name: Seq<char>, a: AVal) -> Seq<u8> {
+    s1(spec_tag(a)) + enc16(utf8(name).len() as u16) + utf8(name) + spec_val_enc(a)
+}
+
 /// every string and raw body fits its 16-bit length field (the domain of C01 / C03)
 pub open spec fn wf16(a: AVal) -> bool
     decreases a
